@@ -10,9 +10,11 @@ from .rules_C08 import null_test
 META = {
     'explanation': 'The finite-state machine of SystemClockLoop::loop() is extracted from the switch over mRequestStatus (arms selected '
                    'by constant value); E-PATH rules over each arm: exhaustiveness, transition relation without sinks, failure paths '
-                   'that touch no clock state, the success path that applies exactly the response, unit pairing of the two waiting '
-                   'periods, saturation of the back-off, null tests of the reference/backup clocks, and a typestate exploration of '
-                   'the FSM for the two timestamps that have no initialiser.',
+                   'that touch no clock state, the success path that applies exactly the response; the arm summaries (E-GNF) of the '
+                   'two waiting periods and of the back-off are given their integer meaning on finite domains (elapsed times around '
+                   'period*1000 and the timeout, every 16-bit period) - whichever way the comparison, the local and the cast are '
+                   'spelled; null tests of the reference/backup clocks, the backup write interpreted with the clock scenarios of C13; '
+                   'and a typestate exploration of the FSM for the two timestamps that have no initialiser.',
     'decided': 'every status value has an arm and only status constants are assigned; from every state the machine reaches the '
                'request state; a failed or timed-out request changes neither the clock nor the last-sync data; a valid response is '
                'applied with the value read and resets the period; both waits compare milliseconds with period*1000; the back-off '
